@@ -2,6 +2,7 @@ package main
 
 import (
 	"bytes"
+	"regexp"
 	"encoding/json"
 	"fmt"
 	"math/rand"
@@ -21,6 +22,7 @@ func init() {
 	register("C19", "model_checking", func(r *ev.Run) {
 		opshellCampaign(r)
 		compositionLeg(r)
+		muteEndToEnd(r)
 	})
 }
 
@@ -370,4 +372,93 @@ func opshellCampaign(r *ev.Run) {
 	r.Set("exhaustive", len(walks) == r.Get("edge_cover_walks"))
 	r.Rule("walks covering the edges of Opshell.tla's TLC graph (Ctrl+O, shell output, status lines, timer expiry at half-second ticks; up to the event and time bounds) are replayed in real time against the real lib/opshell running on a pseudo-terminal: shell output and status lines are injected at their ticks, Ctrl+O is typed, and the terminal output is read with arrival times: which markers appear, 'Muting' / 'Already muted' announcements, and 'Unmuting' within -0.45/+0.6 tick of the tick the specification fires the timer, including the mute still in force when the schedule ends; non-trivial = distinct schedules containing a Ctrl+O")
 	r.Assume("real time: a walk whose events could not be sent within 120 ms of their planned instant is re-run and otherwise dropped; events coinciding with the timer's expiry are not generated")
+}
+
+// muteEndToEnd plays one mute cycle through the real binary: shell output arrives over /o,
+// a status line is caused by a refused connection, Ctrl+O is typed on the pty.
+func muteEndToEnd(r *ev.Run) {
+	scratch, err := os.MkdirTemp(os.Getenv("VERIF_SCRATCH"), "mute-e2e-")
+	if err != nil {
+		return
+	}
+	defer os.RemoveAll(scratch)
+	bin, err := buildBinary(scratch)
+	if err != nil {
+		r.Inconclusive("%v", err)
+		return
+	}
+	p, err := ptyx.Start(bin, []string{"-listen-address", "127.0.0.1:0", "-tls-certificate-cache", filepath.Join(scratch, "c.txtar")}, ptyx.Opts{Dir: scratch, Env: []string{"HOME=" + scratch}})
+	if err != nil {
+		r.Inconclusive("%v", err)
+		return
+	}
+	defer p.Close()
+	m, ok := p.WaitFor(reListen, 0, 10*time.Second)
+	if !ok {
+		r.Inconclusive("mute end-to-end: binary did not start")
+		return
+	}
+	addr := string(reListen.FindSubmatch(m)[1])
+	ci, err1 := hold(addr, "/i/mute")
+	co, err2 := dialTLS(addr)
+	if err1 != nil || err2 != nil {
+		r.Inconclusive("mute end-to-end: %v %v", err1, err2)
+		return
+	}
+	defer ci.Close()
+	defer co.Close()
+	fmt.Fprintf(co, "POST /o/mute HTTP/1.1\r\nHost: x\r\nTransfer-Encoding: chunked\r\n\r\n")
+	if _, ok := p.WaitFor(regexp.MustCompile(`Shell is ready`), 0, 5*time.Second); !ok {
+		r.Inconclusive("mute end-to-end: shell not attached")
+		return
+	}
+	send := func(s string) { fmt.Fprintf(co, "%x\r\n%s\r\n", len(s), s) }
+	seen := func(s string) bool { return bytes.Contains(p.Output(), []byte(s)) }
+	send("<before>\n")
+	if _, ok := p.WaitFor(regexp.MustCompile(`<before>`), 0, 3*time.Second); !ok {
+		r.Violation("e2e:output-not-shown-before-any-ctrl-o", map[string]any{})
+		return
+	}
+	p.Type([]byte{0x0f})
+	if _, ok := p.WaitFor(regexp.MustCompile(`Muting until`), 0, 3*time.Second); !ok {
+		r.Violation("e2e:no-muting-announcement", map[string]any{})
+		return
+	}
+	var last time.Time
+	for i := 0; i < 5; i++ {
+		send(fmt.Sprintf("<muted%d>\n", i))
+		last = time.Now()
+		time.Sleep(400 * time.Millisecond)
+		if i == 2 {
+			// a refused attempt: its notice is a status line and must get through
+			c, err := dialTLS(addr)
+			if err == nil {
+				fmt.Fprintf(c, "GET /i/mute-other HTTP/1.1\r\nHost: x\r\n\r\n")
+				time.Sleep(100 * time.Millisecond)
+				c.Close()
+			}
+		}
+	}
+	if !seen("Rejected") {
+		r.Violation("e2e:status-line-suppressed", map[string]any{"what": "the refusal notice caused during the mute did not reach the terminal"})
+	}
+	if _, ok := p.WaitFor(regexp.MustCompile(`Unmuting`), 0, 4*time.Second); !ok {
+		r.Violation("e2e:never-unmutes", map[string]any{})
+		return
+	}
+	if d := time.Since(last); d < 1500*time.Millisecond || d > 3200*time.Millisecond {
+		r.Violation("e2e:unmute-time", map[string]any{"seconds_after_last_suppressed_output": d.Seconds()})
+	}
+	for i := 0; i < 5; i++ {
+		if seen(fmt.Sprintf("<muted%d>", i)) {
+			r.Violation("e2e:plain-shown-while-muted", map[string]any{"chunk": i})
+		}
+	}
+	send("<after>\n")
+	if _, ok := p.WaitFor(regexp.MustCompile(`<after>`), 0, 3*time.Second); !ok {
+		r.Violation("e2e:output-not-shown-after-unmute", map[string]any{})
+	}
+	r.Set("end_to_end_mute_cycle", "real binary on a pty: output over /o, refusal notice during the mute, Ctrl+O typed")
+	p.Type([]byte{4})
+	p.WaitExit(5 * time.Second)
 }
